@@ -425,7 +425,6 @@ theorem cueModZipRule_of_valid (U : Uni) (hv : List Str) (p : Str)
       rw [h2]
       dsimp only
       have e1 : (sCueMod ++ 47 :: joinSlash (b :: t)).isEmpty = false := by simp [sCueMod]
-      have e2 : (sCueMod ++ 47 :: joinSlash (b :: t)).contains 47 = true := by simp
       have e3 : sCueModSlash.isPrefixOf (sCueMod ++ 47 :: joinSlash (b :: t)) = true := by
         apply List.isPrefixOf_iff_prefix.mpr
         exact ⟨joinSlash (b :: t), by simp [sCueModSlash]⟩
@@ -437,7 +436,7 @@ theorem cueModZipRule_of_valid (U : Uni) (hv : List Str) (p : Str)
           apply hm
           rw [hcase (equalFold_cueModSlash U _ hq)]
           decide
-      simp [e1, e2, e3, e4]
+      simp [e1, e3, e4]
   · subst hes
     exfalso
     have hgy : GoodElems ys := fun e he => hg e (List.mem_append_right _ he)
@@ -487,5 +486,430 @@ theorem czTail_valid (st : CZState) (e : ZEnt) (hdir : isDirName e.name = false)
   have n2 : ¬ (e.name = sLICENSE ∧ (e.declared : Int) > (maxLICENSE : Int)) := by
     rintro ⟨h1, h2⟩; have := hlic h1; omega
   rw [if_neg n1, if_neg n2]
+
+/-! ### one step of checkFiles, with the collision-map bookkeeping -/
+
+/-- `cfStep_cases` with the facts about the collision map added -/
+theorem cfStep_cases2 (U : Uni) (hv : List Str) (st : CFState) (f : FEnt) :
+    cfStep U hv st f = st ∨
+    (∃ cc' o w, CCMono st.cc cc' ∧
+      cfStep U hv st f = ({ st with cc := cc' }).addError f.path o w) ∨
+    (∃ cc', ccCheckTop U st.cc f.path false = (cc', none) ∧
+      cfStep U hv st f = cfTail { st with cc := cc' } f ∧
+      checkFilePath U f.path = none ∧ f.path ≠ sLocalModule ∧
+      inSubmodule hv f.path = false ∧ cueModTopRule U f.path = none) := by
+  rw [cfStep_eq]
+  have err : ∀ (X : CFState) (Q : Prop) cc' o w, CCMono st.cc cc' →
+      X = ({ st with cc := cc' } : CFState).addError f.path o w →
+      (X = st ∨ (∃ cc'' o' w', CCMono st.cc cc'' ∧
+        X = ({ st with cc := cc'' } : CFState).addError f.path o' w') ∨ Q) :=
+    fun _ _ cc' o w hm h => Or.inr (Or.inl ⟨cc', o, w, hm, h⟩)
+  have rf := CCMono.refl st.cc
+  by_cases h1 : f.kind = .lstatErr
+  · rw [if_pos h1]; exact err _ _ st.cc _ _ rf rfl
+  rw [if_neg h1]
+  by_cases h2 : f.kind = .dir
+  · rw [if_pos h2]; exact Or.inl rfl
+  rw [if_neg h2]
+  by_cases h3 : f.path ≠ pathClean f.path
+  · rw [if_pos h3]; exact err _ _ st.cc _ _ rf rfl
+  rw [if_neg h3]
+  by_cases h4 : isAbs f.path = true
+  · rw [if_pos h4]; exact err _ _ st.cc _ _ rf rfl
+  rw [if_neg h4]
+  by_cases h5 : isVendoredPackage f.path = true
+  · rw [if_pos h5]; exact err _ _ st.cc _ _ rf rfl
+  rw [if_neg h5]
+  by_cases h6 : inSubmodule hv f.path = true
+  · rw [if_pos h6]; exact err _ _ st.cc _ _ rf rfl
+  rw [if_neg h6]
+  by_cases h7 : f.path = sHgArchival
+  · rw [if_pos h7]; exact err _ _ st.cc _ _ rf rfl
+  rw [if_neg h7]
+  by_cases h8 : f.path = sLocalModule
+  · rw [if_pos h8]; exact err _ _ st.cc _ _ rf rfl
+  rw [if_neg h8]
+  cases h9 : checkFilePath U f.path with
+  | some e => dsimp only; exact err _ _ st.cc _ _ rf rfl
+  | none =>
+  dsimp only
+  cases h10 : cueModTopRule U f.path with
+  | some w => dsimp only; exact err _ _ st.cc _ _ rf rfl
+  | none =>
+  dsimp only
+  rcases h11 : ccCheckTop U st.cc f.path false with ⟨cc', _ | w⟩
+  · dsimp only
+    have hm := Coll.ccCheckTop_mono h11
+    by_cases h12 : f.kind = .symlink
+    · rw [if_pos h12]; exact err _ _ cc' _ _ hm rfl
+    rw [if_neg h12]
+    by_cases h13 : f.kind ≠ .regular
+    · rw [if_pos h13]; exact err _ _ cc' _ _ hm rfl
+    rw [if_neg h13]
+    exact Or.inr (Or.inr ⟨cc', rfl, rfl, rfl, h8, by simpa using h6, rfl⟩)
+  · dsimp only; exact err _ _ cc' _ _ (Coll.ccCheckTop_mono h11) rfl
+
+theorem cfSize_cc (st : CFState) (f : FEnt) : (cfSize st f).cc = st.cc := by
+  unfold cfSize; split <;> rfl
+
+theorem cfFound_cc (st : CFState) (f : FEnt) : (cfFound st f).cc = st.cc := by
+  unfold cfFound; split <;> rfl
+
+/-- the outcomes of the size accounting of `cfStep`: an error, or the entry becomes valid -/
+theorem cfTail_cases (st : CFState) (f : FEnt) :
+    ((cfTail st f).validEnts = st.validEnts ∧ (cfTail st f).cf.valid = st.cf.valid ∧
+      (cfTail st f).cc = st.cc ∧ ((cfTail st f).found = true → st.found = true) ∧
+      ((cfTail st f).cf.sizeError = false →
+        st.cf.sizeError = false ∧ (cfTail st f).maxSize ≤ st.maxSize)) ∨
+    ((cfTail st f).validEnts = st.validEnts ++ [f] ∧
+      (cfTail st f).cf.valid = st.cf.valid ++ [f.path] ∧
+      (cfTail st f).cc = st.cc ∧
+      ((cfTail st f).found = true → st.found = true ∨ f.path = sCueModModule) ∧
+      ((cfTail st f).cf.sizeError = false →
+        st.cf.sizeError = false ∧ 0 ≤ f.size ∧ f.size ≤ st.maxSize ∧
+        (cfTail st f).maxSize = st.maxSize - f.size) ∧
+      (f.path = sCueModModule → f.size ≤ (maxCUEMod : Int)) ∧
+      (f.path = sLICENSE → f.size ≤ (maxLICENSE : Int))) := by
+  obtain ⟨a2, b2, c2, -, d2, -⟩ := cfSize_frame st f
+  obtain ⟨a3, b3, c3, d3, e3⟩ := cfFound_frame (cfSize st f) f
+  have errCase : ∀ w, 
+      ((cfSize st f).addError f.path false w).validEnts = st.validEnts ∧
+      ((cfSize st f).addError f.path false w).cf.valid = st.cf.valid ∧
+      ((cfSize st f).addError f.path false w).cc = st.cc ∧
+      (((cfSize st f).addError f.path false w).found = true → st.found = true) ∧
+      (((cfSize st f).addError f.path false w).cf.sizeError = false →
+        st.cf.sizeError = false ∧ ((cfSize st f).addError f.path false w).maxSize ≤ st.maxSize) := by
+    intro w
+    obtain ⟨x1, x2, x3, x4, x5, x6⟩ := CFState.addError_frame (cfSize st f) f.path false w
+    refine ⟨x2.trans b2, x1.trans a2, x6.trans (cfSize_cc st f), ?_, ?_⟩
+    · intro h; rw [x3, c2] at h; exact h
+    · intro h
+      rw [x4] at h
+      obtain ⟨k1, k2, k3, k4⟩ := d2 h
+      rw [x5, k4]
+      exact ⟨k1, by omega⟩
+  unfold cfTail
+  simp only []
+  split
+  · exact Or.inl (errCase _)
+  · rename_i hcm
+    split
+    · rename_i hl
+      rw [e3 (by rw [hl.1]; exact sLICENSE_ne_cueModModule)]
+      exact Or.inl (errCase _)
+    · rename_i hli
+      refine Or.inr ⟨?_, ?_, ?_, ?_, ?_, ?_, ?_⟩
+      · show (cfFound (cfSize st f) f).validEnts ++ [f] = _
+        rw [b3, b2]
+      · show (cfFound (cfSize st f) f).cf.valid ++ [f.path] = _
+        rw [a3, a2]
+      · show (cfFound (cfSize st f) f).cc = _
+        rw [cfFound_cc, cfSize_cc]
+      · intro h
+        have h' : (cfFound (cfSize st f) f).found = true := h
+        rcases d3 h' with h'' | h''
+        · rw [c2] at h''; exact Or.inl h''
+        · exact Or.inr h''
+      · intro h
+        have h' : (cfFound (cfSize st f) f).cf.sizeError = false := h
+        rw [a3] at h'
+        obtain ⟨k1, k2, k3, k4⟩ := d2 h'
+        refine ⟨k1, k2, k3, ?_⟩
+        show (cfFound (cfSize st f) f).maxSize = _
+        rw [c3, k4]
+      · exact fun hp => Int.not_lt.mp (fun h => hcm ⟨hp, h⟩)
+      · exact fun hp => Int.not_lt.mp (fun h => hli ⟨hp, h⟩)
+
+theorem cfStep_validEnts_prefix (U : Uni) (hv : List Str) (st : CFState) (f : FEnt) :
+    st.validEnts <+: (cfStep U hv st f).validEnts := by
+  rcases cfStep_cases2 U hv st f with h | ⟨cc', o, w, -, h⟩ | ⟨cc', -, h, -⟩ <;> rw [h]
+  · exact List.prefix_refl _
+  · rw [(CFState.addError_frame _ _ _ _).2.1]; exact List.prefix_refl _
+  · rcases cfTail_cases { st with cc := cc' } f with ⟨t1, -⟩ | ⟨t1, -⟩ <;> rw [t1]
+    · exact List.prefix_refl _
+    · exact List.prefix_append _ _
+
+theorem cfFold_validEnts_prefix (U : Uni) (hv : List Str) (l : List FEnt) (st : CFState) :
+    st.validEnts <+: (l.foldl (cfStep U hv) st).validEnts := by
+  induction l generalizing st with
+  | nil => exact List.prefix_refl _
+  | cons f fs ih => exact List.IsPrefix.trans (cfStep_validEnts_prefix U hv st f) (ih _)
+
+/-! ### the simulation relation between the two loops -/
+
+/-- `cz` is the state of CheckZip after the entries written for the valid files seen so far by
+checkFiles, whose state is `st` -/
+structure Rel (st : CFState) (cz : CZState) : Prop where
+  cc : CCMono cz.cc st.cc
+  valid : cz.cf.valid = st.cf.valid
+  ok : cz.ok
+  size : st.cf.sizeError = false → 0 ≤ cz.size ∧ cz.size + st.maxSize ≤ (maxZipFile : Int)
+  found : st.found = true → cz.modFile = true
+
+theorem Rel.init : Rel {} {} := by
+  refine ⟨CCMono.refl _, rfl, ⟨rfl, rfl⟩, fun _ => ⟨Int.le_refl _, ?_⟩, fun h => by cases h⟩
+  show (0 : Int) + (maxZipFile : Int) ≤ (maxZipFile : Int)
+  omega
+
+theorem Rel.frame {st st' : CFState} {cz : CZState} (h : Rel st cz)
+    (hcc : CCMono st.cc st'.cc) (hv : st'.cf.valid = st.cf.valid)
+    (hs : st'.cf.sizeError = false → st.cf.sizeError = false ∧ st'.maxSize ≤ st.maxSize)
+    (hf : st'.found = true → st.found = true) : Rel st' cz := by
+  refine ⟨h.cc.trans hcc, by rw [hv]; exact h.valid, h.ok, ?_, fun hh => h.found (hf hh)⟩
+  intro hh
+  obtain ⟨s1, s2⟩ := hs hh
+  obtain ⟨z1, z2⟩ := h.size s1
+  exact ⟨z1, by omega⟩
+
+theorem czMod_cc (st : CZState) (b : Bool) : (czMod st b).cc = st.cc := by
+  unfold czMod; split <;> rfl
+
+theorem czMod_modFile (st : CZState) (b : Bool) :
+    (czMod st b).modFile = (st.modFile || b) := by
+  unfold czMod; cases b <;> simp
+
+/-- one iteration of checkFiles against zero or one iteration of CheckZip -/
+theorem step_rel (U : Uni) (ents : List FEnt) (st : CFState) (cz : CZState) (f : FEnt)
+    (hf : f ∈ ents) (hrel : Rel st cz)
+    (hse : (cfStep U (haveCUEMod U ents) st f).cf.sizeError = false) :
+    ((cfStep U (haveCUEMod U ents) st f).validEnts = st.validEnts ∧
+      Rel (cfStep U (haveCUEMod U ents) st f) cz) ∨
+    ((cfStep U (haveCUEMod U ents) st f).validEnts = st.validEnts ++ [f] ∧
+      ∀ e : ZEnt, e.name = f.path → f.path ≠ sCueMod → e.declared ≤ f.size.toNat →
+        Rel (cfStep U (haveCUEMod U ents) st f) (czStep U cz e)) := by
+  rcases cfStep_cases2 U (haveCUEMod U ents) st f with h | ⟨cc', o, w, hm, h⟩ |
+    ⟨cc', hcc, h, hp, hloc, hsub, htop⟩ <;> rw [h] at hse ⊢
+  · exact Or.inl ⟨rfl, hrel⟩
+  · obtain ⟨x1, x2, x3, x4, x5, x6⟩ :=
+      CFState.addError_frame ({ st with cc := cc' } : CFState) f.path o w
+    refine Or.inl ⟨x2, hrel.frame (by rw [x6]; exact hm) x1 ?_ (by rw [x3]; exact id)⟩
+    intro hh
+    rw [x4] at hh
+    exact ⟨hh, by rw [x5]; exact Int.le_refl _⟩
+  · have hm : CCMono st.cc cc' := Coll.ccCheckTop_mono hcc
+    rcases cfTail_cases { st with cc := cc' } f with ⟨t1, t2, t3, t4, t5⟩ |
+      ⟨t1, t2, t3, t4, t5, t6, t7⟩
+    · exact Or.inl ⟨t1, hrel.frame (by rw [t3]; exact hm) t2 t5 t4⟩
+    · refine Or.inr ⟨t1, ?_⟩
+      intro e hn hne hdecl
+      obtain ⟨s1, s2, s3, s4⟩ := t5 hse
+      have s1' : st.cf.sizeError = false := s1
+      have s3' : f.size ≤ st.maxSize := s3
+      have s4' : (cfTail { st with cc := cc' } f).maxSize = st.maxSize - f.size := s4
+      obtain ⟨z1, z2⟩ := hrel.size s1'
+      obtain ⟨cc2, hcc2, hm2⟩ := ccCheckTop_sim U cz.cc st.cc cc' f.path false hrel.cc hcc
+      have hrule : ∃ b, cueModZipRule U f.path = (none, b) ∧ (f.path = sCueModModule → b = true) := by
+        by_cases hmod : f.path = sCueModModule
+        · exact ⟨true, by rw [hmod]; exact cueModZipRule_module U, fun _ => rfl⟩
+        · exact ⟨false, cueModZipRule_of_valid U _ f.path
+            (fun d r hs hr => mem_haveCUEMod U ents f hf d r hs hr) hp hsub htop hne hmod,
+            fun hh => absurd hh hmod⟩
+      obtain ⟨b, hb, hbm⟩ := hrule
+      have hdir : isDirName e.name = false := by rw [hn]; exact isDirName_false_of_path hp
+      have hstep := czStep_valid U cz e cc2 b (by rw [hn]; exact hp) (by rw [hn]; exact hloc)
+        (by rw [hn]; exact hcc2) (by rw [hn]; exact hb)
+      obtain ⟨m1, m2⟩ := czMod_frame { cz with cc := cc2 } b
+      have m2' : (czMod { cz with cc := cc2 } b).size = cz.size := m2
+      have hdI : (e.declared : Int) ≤ f.size := by omega
+      have htail := czTail_valid (czMod { cz with cc := cc2 } b) e hdir (by rw [m2']; exact z1)
+        (by rw [m2']; omega)
+        (by intro h1; rw [hn] at h1; have := t6 h1; omega)
+        (by intro h1; rw [hn] at h1; have := t7 h1; omega)
+      rw [hstep, htail]
+      refine ⟨?_, ?_, ?_, ?_, ?_⟩
+      · show CCMono (czMod { cz with cc := cc2 } b).cc _
+        rw [czMod_cc, t3]; exact hm2
+      · show (czMod { cz with cc := cc2 } b).cf.valid ++ [e.name] = _
+        rw [m1, t2, hn]
+        show cz.cf.valid ++ [f.path] = st.cf.valid ++ [f.path]
+        rw [hrel.valid]
+      · have := hrel.ok
+        refine ⟨?_, ?_⟩
+        · show (czMod { cz with cc := cc2 } b).cf.invalid = []
+          rw [m1]; exact this.1
+        · show (czMod { cz with cc := cc2 } b).cf.sizeError = false
+          rw [m1]; exact this.2
+      · intro _
+        show 0 ≤ (czMod { cz with cc := cc2 } b).size + (e.declared : Int) ∧
+          (czMod { cz with cc := cc2 } b).size + (e.declared : Int) +
+            (cfTail { st with cc := cc' } f).maxSize ≤ (maxZipFile : Int)
+        rw [m2', s4']
+        omega
+      · intro hfd
+        show (czMod { cz with cc := cc2 } b).modFile = true
+        rw [czMod_modFile]
+        rcases t4 hfd with h1 | h1
+        · have : cz.modFile = true := hrel.found h1
+          show (cz.modFile || b) = true
+          rw [this]; rfl
+        · rw [hbm h1]; simp
+
+/-! ### the fold over the files -/
+
+theorem fold_rel (U : Uni) (ents : List FEnt) (files : List SrcFile) :
+    ∀ (l : List FEnt) (st : CFState) (cz : CZState), (∀ f ∈ l, f ∈ ents) → Rel st cz →
+      (l.foldl (cfStep U (haveCUEMod U ents)) st).cf.sizeError = false →
+      (∀ f ∈ (l.foldl (cfStep U (haveCUEMod U ents)) st).validEnts,
+        f.path ≠ sCueMod ∧ (srcOf files f).length ≤ f.size.toNat) →
+      ∃ new, (l.foldl (cfStep U (haveCUEMod U ents)) st).validEnts = st.validEnts ++ new ∧
+        Rel (l.foldl (cfStep U (haveCUEMod U ents)) st)
+          ((new.map (mkEnt files)).foldl (czStep U) cz) := by
+  intro l
+  induction l with
+  | nil =>
+    intro st cz _ hrel _ _
+    exact ⟨[], by simp, hrel⟩
+  | cons f fs ih =>
+    intro st cz hmem hrel hse hgood
+    rw [List.foldl_cons] at hse hgood ⊢
+    have hse1 : (cfStep U (haveCUEMod U ents) st f).cf.sizeError = false := by
+      cases h : (cfStep U (haveCUEMod U ents) st f).cf.sizeError with
+      | false => rfl
+      | true =>
+        have := cfFold_sizeError_mono U (haveCUEMod U ents) fs _ h
+        rw [hse] at this
+        cases this
+    have hmem' : ∀ g ∈ fs, g ∈ ents := fun g hg => hmem g (List.mem_cons_of_mem _ hg)
+    rcases step_rel U ents st cz f (hmem f List.mem_cons_self) hrel hse1 with
+      ⟨hv1, hr1⟩ | ⟨hv1, hr1⟩
+    · obtain ⟨new, hn, hr⟩ := ih _ cz hmem' hr1 hse hgood
+      exact ⟨new, by rw [hn, hv1], hr⟩
+    · have hfmem : f ∈ (fs.foldl (cfStep U (haveCUEMod U ents))
+          (cfStep U (haveCUEMod U ents) st f)).validEnts :=
+        (cfFold_validEnts_prefix U _ fs _).subset (by rw [hv1]; simp)
+      obtain ⟨g1, g2⟩ := hgood f hfmem
+      have hr1' := hr1 (mkEnt files f) rfl g1 g2
+      obtain ⟨new, hn, hr⟩ := ih _ _ hmem' hr1' hse hgood
+      exact ⟨f :: new, by rw [hn, hv1]; simp, hr⟩
+
+/-! ### the final theorem -/
+
+theorem le_foldl_sum (l : List Int) (h : ∀ x ∈ l, 0 ≤ x) :
+    ∀ a : Int, a ≤ l.foldl (· + ·) a ∧ ∀ x ∈ l, a + x ≤ l.foldl (· + ·) a := by
+  induction l with
+  | nil => intro a; exact ⟨Int.le_refl _, fun x hx => by cases hx⟩
+  | cons c cs ih =>
+    intro a
+    have hc := h c List.mem_cons_self
+    obtain ⟨i1, i2⟩ := ih (fun x hx => h x (List.mem_cons_of_mem _ hx)) (a + c)
+    rw [List.foldl_cons]
+    refine ⟨by omega, ?_⟩
+    intro x hx
+    rcases List.mem_cons.mp hx with rfl | hx
+    · exact i1
+    · have := i2 x hx
+      have := h x (List.mem_cons_of_mem _ hx)
+      omega
+
+theorem isAncestor_cueMod : IsAncestor sCueMod sCueModModule :=
+  ⟨by decide, sModuleCue, by decide, by decide⟩
+
+theorem create_passes_checkZip_aux (U : Uni) (files : List SrcFile) (ents : List FEnt)
+    (z : List ZEnt) (zipSize : Nat) (hents : ents = files.map (·.ent))
+    (herr : (checkFiles U ents).1.isErr = false)
+    (hsrc : ∀ e ∈ (checkFiles U ents).2, (srcOf files e).length ≤ e.size.toNat)
+    (hzeq : z = (checkFiles U ents).2.map (mkEnt files))
+    (hz : zipSize ≤ maxZipFile) :
+    (checkZip U zipSize z).isErr = false ∧
+    (checkZip U zipSize z).valid = (checkFiles U ents).1.valid ∧
+    z.map (·.name) = (checkFiles U ents).1.valid ∧
+    (∀ e ∈ z, skipEntry e = false ∧ Honest e) ∧
+    (∀ e ∈ z, ∃ s ∈ files, s.ent ∈ (checkFiles U ents).2 ∧
+        e.name = s.ent.path ∧ e.data = s.content) := by
+  have hok := checkFiles_ok U ents herr
+  simp only [] at hok
+  obtain ⟨k1, k2, k3, k4, k5, k6, k7⟩ := hok
+  have hcoll := checkFiles_collisionFree U ents
+  -- the final state of checkFiles
+  have hr1 : (checkFiles U ents).1.valid =
+      (checkFilesState U ents).cf.valid := rfl
+  have hr2 : (checkFiles U ents).2 =
+      (checkFilesState U ents).validEnts := rfl
+  have hse : (checkFilesState U ents).cf.sizeError = false := by
+    have : (checkFiles U ents).1.sizeError =
+        (checkFilesState U ents).cf.sizeError := rfl
+    rw [← this]
+    simp only [Checked.isErr, Bool.or_eq_false_iff] at herr
+    exact herr.1.1
+  have hfound : (checkFilesState U ents).found = true := by
+    have : (checkFiles U ents).1.noMod =
+        !(checkFilesState U ents).found := rfl
+    simp only [Checked.isErr, Bool.or_eq_false_iff] at herr
+    have h2 := herr.2
+    rw [this] at h2
+    simpa using h2
+  -- no valid name is the file "cue.mod"
+  have hnoCueMod : ∀ f ∈ (checkFiles U ents).2, f.path ≠ sCueMod := by
+    intro f hf hfp
+    have hfv : f.path ∈ (checkFiles U ents).1.valid := by
+      rw [k1]; exact List.mem_map.mpr ⟨f, hf, rfl⟩
+    have := hcoll.2 f.path hfv sCueModModule k4 sCueMod isAncestor_cueMod
+    exact this (by rw [hfp])
+  -- the simulation
+  obtain ⟨new, hnew, hrel⟩ := fold_rel U ents files ents {} {}
+    (fun _ h => h) Rel.init hse
+    (fun f hf => ⟨hnoCueMod f (by rw [hr2]; exact hf), hsrc f (by rw [hr2]; exact hf)⟩)
+  have hnew' : (checkFilesState U ents).validEnts = new := by
+    rw [show checkFilesState U ents =
+      ents.foldl (cfStep U (haveCUEMod U ents)) {} from rfl, hnew]
+    rfl
+  have hzst : checkZipState U z =
+      (new.map (mkEnt files)).foldl (czStep U) {} := by
+    rw [hzeq, hr2, hnew']; rfl
+  have hrel' : Rel (checkFilesState U ents) (checkZipState U z) := by
+    rw [hzst]; exact hrel
+  have hcz : checkZip U zipSize z =
+      { (checkZipState U z).cf with noMod := !(checkZipState U z).modFile } := by
+    unfold checkZip
+    rw [if_neg (by omega)]
+  have hnames : z.map (·.name) = (checkFiles U ents).1.valid := by
+    rw [k1, hzeq, List.map_map]
+    rfl
+  refine ⟨?_, ?_, hnames, ?_, ?_⟩
+  · rw [hcz]
+    obtain ⟨o1, o2⟩ := hrel'.ok
+    have o3 := hrel'.found hfound
+    simp [Checked.isErr, o1, o2, o3]
+  · rw [hcz, hr1]
+    exact hrel'.valid
+  · intro e he
+    rw [hzeq] at he
+    obtain ⟨f, hf, rfl⟩ := List.mem_map.mp he
+    obtain ⟨-, -, hsz0, hpath⟩ := k2 f hf
+    obtain ⟨hne, hlast, -⟩ := checkFilePath_none hpath
+    refine ⟨?_, ?_, rfl, rfl, rfl, rfl⟩
+    · unfold skipEntry
+      have e1 : (mkEnt files f).name = f.path := rfl
+      rw [e1]
+      have : f.path.isEmpty = false := by simpa using hne
+      rw [this]
+      simpa using hlast
+    · show (srcOf files f).length < 2 ^ 64
+      have h1 := hsrc f hf
+      have hall : ∀ x ∈ (checkFiles U ents).2.map (·.size), 0 ≤ x := by
+        intro x hx
+        obtain ⟨g, hg, rfl⟩ := List.mem_map.mp hx
+        exact (k2 g hg).2.2.1
+      have h2 := (le_foldl_sum _ hall 0).2 f.size (List.mem_map.mpr ⟨f, hf, rfl⟩)
+      have : (maxZipFile : Int) = 524288000 := rfl
+      omega
+  · intro e he
+    rw [hzeq] at he
+    obtain ⟨f, hf, rfl⟩ := List.mem_map.mp he
+    obtain ⟨s, hs, hse', hsc⟩ := srcOf_spec files f (by rw [← hents]; exact (k2 f hf).1)
+    exact ⟨s, hs, by rw [hse']; exact hf, by rw [hse']; rfl, hsc⟩
+
+/-- `create` only emits archives that pass `checkZip`, with the same valid list; the entries are
+the valid files, in order, honest, none skipped by Unzip, each with the content of its source -/
+theorem create_passes_checkZip (U : Uni) (files : List SrcFile) (z : List ZEnt) (zipSize : Nat)
+    (hc : create U files = some z) (hz : zipSize ≤ maxZipFile) :
+    (checkZip U zipSize z).isErr = false ∧
+    (checkZip U zipSize z).valid = (checkFiles U (files.map (·.ent))).1.valid ∧
+    z.map (·.name) = (checkFiles U (files.map (·.ent))).1.valid ∧
+    (∀ e ∈ z, skipEntry e = false ∧ Honest e) ∧
+    (∀ e ∈ z, ∃ s ∈ files, s.ent ∈ (checkFiles U (files.map (·.ent))).2 ∧
+        e.name = s.ent.path ∧ e.data = s.content) := by
+  obtain ⟨herr, hsrc, hzeq⟩ := create_some U files z hc
+  exact create_passes_checkZip_aux U files _ z zipSize rfl herr hsrc hzeq hz
 
 end CueVerif.Modzip
